@@ -499,6 +499,11 @@ func (in *Interp) runFrame(fr *frame) {
 				if fr.cur != nil {
 					w += " at " + fr.in.prog.Fset.Position(fr.cur.Pos()).String()
 				}
+				w += " [calls:"
+				for c, n := fr.caller, 0; c != nil && c.fn != nil && n < 12; c, n = c.caller, n+1 {
+					w += " < " + c.fn.Name()
+				}
+				w += "]"
 				r.where = &w
 			}
 			fr.panicking = true
